@@ -214,6 +214,17 @@ class SeqDelay(DelayModel):
         return self            # the planner copies the model per task; keep one stream
 
 
+class SeedDelay(DelayModel):
+    """E10b: a delay model whose outcome is a function of its seed attribute alone (stands in for 'a seeded stream'):
+    every task's copy of the planner's model must carry a seed that does not depend on the interpreter's hash salt"""
+
+    def __init__(self, seed=20):
+        super().__init__(1.0, 'normal', DelayModel.DelayDegree.LOW, seed=seed)
+
+    def generate_delay(self, task_runtime, n=100):
+        return task_runtime + (self.seed % 3)
+
+
 class Adversary(Scheduling):
     """E9: proposes machine choices[k] (any machine: busy, duplicated, reserved) for every unscheduled task;
     honest about status; 'honest_prec' selects whether it respects precedence."""
@@ -375,6 +386,18 @@ def probe(sim, mon, snaps):
             mon.tag('C19/telescope-is-idle-wrong')
         if sim.is_finished() != (truly_idle and b_empty and t_idle and len(sch.observation_queue) == 0):
             mon.tag('C19/simulation-is-finished-wrong')
+        # C09: a reservation (idle reserved machines + machines running tasks of its owner) stays within its configured size
+        if STATE.get('batch'):
+            busy_for = {}
+            running = cl._tasks['running']
+            for a in mon.alloc:
+                if not a['ingest'] and a['obs'] is not None and a['task'] in running:
+                    busy_for[a['obs']] = busy_for.get(a['obs'], 0) + 1
+            for name, idle in r['idle'].items():
+                split = STATE.get('split')
+                hi = split[name][1] if split and name in split else len(cl.machines) // max(STATE.get('parts', 1), 1)
+                if len(idle) + busy_for.get(name, 0) > hi:
+                    mon.tag('C09/reservation-above-configured-size')
         # C15: once a task that was given a delay has completed (and the scheduler has had two steps to see it) the
         # schedule is reported as delayed, at every later instant
         if sch.schedule_status is not ScheduleStatus.DELAYED:
@@ -475,11 +498,11 @@ def build(sc):
     graphs = [graph_fn(g) for g in sc['graphs']]
     if len(graphs) == 1:
         graphs = graphs * nobs
-    delay = SeqDelay(sc['delays']) if sc.get('delays') else None
+    delay = SeedDelay(sc['seed_delay']) if sc.get('seed_delay') is not None else (SeqDelay(sc['delays']) if sc.get('delays') else None)
     STATE.clear()
     STATE.update(batch=(sc['alg']['kind'] in ('batch', 'reserve_only')), parts=sc['alg'].get('parts', 1), sim=None,
                  obs_index={f'o{i + 1}': i for i in range(nobs)}, names=sc.get('names'),
-                 shipped_alg=(sc['alg']['kind'] in ('batch', 'queue', 'dynamic', 'greedy')))
+                 shipped_alg=(sc['alg']['kind'] in ('batch', 'queue', 'dynamic', 'greedy')), split=sc['alg'].get('split'))
     gl = sc['graphs'] if len(sc['graphs']) > 1 else sc['graphs'] * nobs
     if sc['alg']['kind'] in ('dynamic', 'greedy') or sc.get('static'):
         model = StubStatic(graphs, sc['assign'], sc['ests'])
@@ -808,6 +831,45 @@ def run_public(sc, segments):
     for u in segments[1:]:
         sim.resume(until=u)
     return sim
+
+
+def run_horizon(sc, segments):
+    """the public API driven for a FIXED horizon (start(runtime=a), resume(until=b) ...) with the probe ahead of the
+    monitor; the horizon may lie beyond the step at which everything is finished.  C12 oracles only (one row per
+    simulated timestep, each row equal to the probed state); event log: no transition twice (C13)."""
+    global CUR
+    mon = Mon()
+    CUR = mon
+    try:
+        sim = build(sc)
+        snaps = []
+        sim.env.process(probe(sim, mon, snaps))
+        try:
+            sim.start(runtime=segments[0])
+            for u in segments[1:]:
+                sim.resume(until=u)
+        except Exception as ex:
+            mon.tag(f'C05/raises/{type(ex).__name__}@fixed-horizon-run')
+            if STATE.get('shipped_alg'):
+                mon.tag(f'C04/run-aborted-by-exception/{type(ex).__name__}@fixed-horizon-run')
+        res = Result(mon.tags, mon, sim, snaps, sim.monitor.df)
+        res.outcome = 'finished' if sim.is_finished() else 'horizon'
+        rows = sim.monitor.df.rows
+        if len(rows) != segments[-1] or len(snaps) < len(rows):
+            mon.tag('C12/row-count-differs-from-timesteps')
+        for row, snap in zip(rows, snaps):
+            for k, v in snap.items():
+                if k not in ('t', 'statuses') and row.get(k) != v:
+                    mon.tag(f'C12/{k}')
+        seen = set()
+        for e in sim.monitor.events.rows:
+            key = (e['time'], e['actor'], e['observation'], e['event'], e['resource'])
+            if key in seen:
+                mon.tag('C13/transition-logged-twice')
+            seen.add(key)
+        return res
+    finally:
+        CUR = None
 
 
 # ------------------------------------------------------------------------------------------------ raw-scenario replay
